@@ -297,7 +297,8 @@ def has_comp(e):
     if isinstance(e, tuple):
         if e and e[0] == "comp":
             return True
-        return any(has_comp(x) for x in e[1:])
+        # node tuples carry a string tag first; (condition, value) pairs of a case do not: inspect every element of those
+        return any(has_comp(x) for x in (e[1:] if e and isinstance(e[0], str) else e))
     if isinstance(e, list):
         return any(has_comp(x) for x in e)
     return False
